@@ -158,3 +158,15 @@ Theorem c10_translated_lossy_is_spec :
     g_color_to_xterm col = spec_to_xterm col /\
     g_color_to_ansi col p = spec_to_ansi p col.
 Proof. exact translated_lossy_is_spec. Qed.
+
+(* impl Default for Palette (non-Windows configuration: `pub use VGA as DEFAULT`) *)
+Theorem c10_translated_palette_default : g_palette_default = palette_default.
+Proof. exact g_palette_default_eq. Qed.
+
+(* impl From<[RgbColor; 16]> for Palette *)
+Theorem c10_translated_palette_from : forall raw, g_palette_from raw = palette_from raw.
+Proof. exact g_palette_from_eq. Qed.
+
+(* the default palette lies in the domain of the property *)
+Theorem c10_translated_palette_default_ok : palette_ok g_palette_default.
+Proof. exact translated_palette_default_ok. Qed.
